@@ -396,6 +396,39 @@ MUTANTS = [
  ('C16-7', 'C16', K + 'BoundaryCondition/CConversionBoundaryCondition.py',
   "            if v[0][0].boundary_cond != '':",
   "            if v[0][0].boundary_cond == '*':"),
+ # ---- C17
+ ('C17-1', 'C17', K + 'Surface/MacroBodies.py',
+  "    if len(params) not in expected:\n        raise MacroBodyError(type_, expected, params)",
+  "    if len(params) < min(expected):\n        raise MacroBodyError(type_, expected, params)"),
+ ('C17-2', 'C17', K + 'Transformation/Transformation.py',
+  "    if len(transf) == 13 and transf[-1] != 1:\n        raise TransformationError",
+  "    if len(transf) == 14 and transf[-1] != 1:\n        raise TransformationError"),
+ ('C17-3', 'C17', K + 'Volume/CellConversion.py',
+  "            if p_tree.sub > len(t4_ids):",
+  "            if p_tree.sub > len(t4_ids) + 1:"),
+ ('C17-4', 'C17', K + 'Composition/CompositionConversionMCNPToT4.py',
+  "            elif positive_fraction != atom_fracs:",
+  "            elif atom_fracs != atom_fracs:"),
+ ('C17-5', 'C17', K + 'FileHandlers/Parser/ParseMCNPSurface.py',
+  "    if n_params is not None and len(params) not in n_params:",
+  "    if n_params is not None and len(params) < min(n_params):"),
+ ('C17-6', 'C17', K + 'FileHandlers/Parser/ParseMCNPCell.py',
+  "        if kw_list and kw_list[-1][0] in '0123456789.+-':\n            msg = (f'unexpected entry",
+  "        if False:\n            msg = (f'unexpected entry"),
+ # (C17-7 dropped: only changes which of two named errors is raised)
+ ('C17-8', 'C17', K + 'FileHandlers/Parser/ParseMCNPCell.py',
+  "                if lat_opt is None:\n                    msg = 'no --lattice option provided'\n                    raise MissingLatticeOptError(msg) from None",
+  "                if lat_opt is None:\n                    lat_opt = parse_ranges(['0:0'] * 3)"),
+ ('C17-9', 'C17', K + 'Volume/CellConversion.py',
+  "            for range_ in domain.bounds[len(lat_base_vectors):]:\n                if range_[0] != range_[1]:",
+  "            for range_ in domain.bounds[len(lat_base_vectors):]:\n                if False:"),
+ ('C17-10', 'C17', K + 'Surface/ESurfaceTypeMCNP.py',
+  "    except AttributeError:\n        raise ValueError(f'{type_surface.upper()}: The type of this surface '\n                         'does not exist')",
+  "    except AttributeError:\n        enumSurface = ESurfaceTypeMCNP.SO"),
+ ('C17-11', 'C17', 't4_geom_convert/main.py',
+  "        if len(rest) > 3:\n            raise ValueError(f'too many ranges specified in option {option!r}')",
+  "        if len(rest) > 3:\n            rest = rest[:3]"),
+ # (C17-12 dropped: equivalent: normalize_transform rejects m != 1 before this redundant check)
 ]
 
 
